@@ -247,7 +247,11 @@ def run_chart(ctx, case):
         labels = [f"family {j // 2}" for j in range(r.num_jobs)]     # two jobs share a label text
         ctx.count("charts_with_repeated_label_texts")
     mlabels = [f"M:{i}" for i in range(r.num_machines)] if case.get("machine_labels") else None
-    fig, ax = plot_gantt_chart(run.d.schedule, xlim=xlim, job_labels=labels, cmap_name=case["cmap"],
+    xlim_arg = xlim
+    if xlim is not None and case["seed"] % 3 == 1:
+        xlim_arg = np.int64(xlim)      # a limit computed with numpy (e.g. the maximum of an array)
+        ctx.count("axis_limits_given_as_numpy_integers")
+    fig, ax = plot_gantt_chart(run.d.schedule, xlim=xlim_arg, job_labels=labels, cmap_name=case["cmap"],
                                number_of_x_ticks=rng.choice([15, 3, 7]), machine_labels=mlabels)
     fig2 = None
     try:
